@@ -54,6 +54,7 @@ type verifStep struct {
 	pend          []verifPend
 	prio          uint32
 	selBeforeIdx  int
+	nomBefore     *CandidatePair // controlling: the pair being nominated before the step (nil: none)
 }
 
 const verifExpectedUsername = verifLocalUfrag + ":" + verifRemoteUfrag
@@ -163,6 +164,7 @@ func verifInboundStep(cfg verifStepCfg) *verifStep {
 			np := a.checklist[k]
 			verifAssume(verifAnd(np.state == CandidatePairStateSucceeded, np.nominated))
 			cs.nominatedPair = np
+			s.nomBefore = np
 		}
 	}
 	if cs, ok := a.selector.(*controlledSelector); ok && cfg.renomination && verifChoice(2) == 1 {
@@ -352,4 +354,28 @@ func (s *verifStep) matchingPendingWithin(limit time.Duration) (bool, *verifPend
 		}
 	}
 	return false, nil
+}
+
+// verifBindingRequest builds an authenticated Binding request from the remote
+// peer. ctrl: 0 none, 1 ICE-CONTROLLING, 2 ICE-CONTROLLED, 3 both.
+func verifBindingRequest(id [stun.TransactionIDSize]byte, ctrl int, tb uint64, useCandidate bool, prio uint32) *stun.Message {
+	setters := []stun.Setter{stun.BindingRequest, stun.NewTransactionIDSetter(id),
+		stun.NewUsername(verifLocalUfrag + ":" + verifRemoteUfrag)}
+	if useCandidate {
+		setters = append(setters, UseCandidate())
+	}
+	switch ctrl {
+	case 1:
+		setters = append(setters, AttrControlling(tb))
+	case 2:
+		setters = append(setters, AttrControlled(tb))
+	case 3:
+		setters = append(setters, AttrControlled(tb), AttrControlling(tb))
+	}
+	setters = append(setters, PriorityAttr(prio), stun.NewShortTermIntegrity(verifLocalPwd), stun.Fingerprint)
+	m, err := stun.Build(setters...)
+	if err != nil {
+		panic("verif: build request: " + err.Error())
+	}
+	return m
 }
